@@ -453,7 +453,7 @@ where
 }
 
 // Verification hooks: raw access to the private fields (compiled only with --cfg rustdds_verif).
-#[cfg(rustdds_verif)]
+#[cfg(all(rustdds_verif, any(not(rustdds_verif_only), rustdds_verif_c14)))]
 impl<N> NumberSet<N>
 where
   N: Clone + Copy + Debug + Hash + PartialEq + Eq + NumOps + From<i64> + Ord + PartialOrd,
@@ -473,7 +473,7 @@ where
 }
 
 // Verification hook: numBits as carried on the wire.
-#[cfg(rustdds_verif)]
+#[cfg(all(rustdds_verif, any(not(rustdds_verif_only), rustdds_verif_c01, rustdds_verif_c03)))]
 impl<N> NumberSet<N>
 where
   N: Clone + Debug + Hash + PartialEq + Eq + NumOps + From<i64>,
